@@ -355,6 +355,7 @@ pub fn leaf_case(leaf: &Leaf, mon: &Monitors) -> serde_json::Value {
         "policy": mon.policy.unwrap_or(PolicyCfg::Default),
         "hash_seed": mon.hash_seed,
         "long_names": mon.names.is_some(),
+        "names": mon.names.as_ref().map(|n| n.iter().take(4).cloned().collect::<Vec<_>>()),
         "seed_name": leaf.seed.name,
         "seed_ops": leaf.seed.ops,
         "ops": leaf.ops,
@@ -422,6 +423,9 @@ pub fn run_leaf(env: &mut Env, leaf: &Leaf, mon: &Monitors) {
     if let Some((sig, what)) = fail {
         if sig == "diverged" {
             env.stats.diverged += 1;
+            if std::env::var("VERIF_DEBUG_DIVERGED").is_ok() {
+                eprintln!("diverged {}", what);
+            }
             return;
         }
         env.stats.violation(Violation {
@@ -553,8 +557,16 @@ fn run_leaf_inner(
         let c16_under_evicted = mon.c16 && matches!((&rec.got, &rec.expected), (Outcome::Truncated(g), Outcome::Truncated(e)) if g < e);
         // C04's monitor is model-free (it follows the positions the implementation itself reports):
         // it still judges the step at which the outcome departs from the model, then the history ends
-        let c04_diverged = mon.c04 && rec.got != rec.expected && !mon.conformance;
-        if rec.got != rec.expected && !(mon.c13 && rec.expected.is_rejected_or_noop()) && !c16_under_evicted && !c04_diverged {
+        // (C04 does not ask whether a queue with an over-long name may be created - C05 does -
+        // but what that does to the positions of the other queues: the history goes on with it)
+        if mon.c04 && !mon.conformance && rec.got == Outcome::Created && rec.expected == Outcome::Err(ErrKind::NameTooLong) {
+            if let COp::Create(name) = &rec.cop {
+                run.model.queues.insert(name.clone(), Default::default());
+            }
+        }
+        let oversize_created = mon.c04 && !mon.conformance && rec.got == Outcome::Created && rec.expected == Outcome::Err(ErrKind::NameTooLong);
+        let c04_diverged = mon.c04 && rec.got != rec.expected && !mon.conformance && !oversize_created;
+        if rec.got != rec.expected && !(mon.c13 && rec.expected.is_rejected_or_noop()) && !c16_under_evicted && !c04_diverged && !oversize_created {
             if mon.conformance {
                 return fail(
                     "outcome-mismatch",
@@ -567,7 +579,7 @@ fn run_leaf_inner(
                     ),
                 );
             }
-            return fail("diverged", String::new());
+            return fail("diverged", format!("(seq.rs:{})", line!()));
         }
         if let Some(b) = rec.bytes {
             cum_bytes += b;
@@ -630,7 +642,7 @@ fn run_leaf_inner(
             }
         }
         if c04_diverged {
-            return fail("diverged", String::new());
+            return fail("diverged", format!("(seq.rs:{})", line!()));
         }
         // ---- file attribution from frame events (C06) and byte accounting (C15)
         if trace {
@@ -759,10 +771,10 @@ fn run_leaf_inner(
         // C05's question, but C16 still asks whether the memory of what the truncation covers was
         // released (the state before the call conformed, so the model says what that is).
         let under_evicted = matches!((&rec.got, &rec.expected), (Outcome::Truncated(g), Outcome::Truncated(e)) if g < e);
-        if rec.got != rec.expected && !(mon.c16 && under_evicted) {
+        if rec.got != rec.expected && !(mon.c16 && under_evicted) && !oversize_created {
             // (C13 run: the spec'd no-op was checked for traces above; the mismatch itself is
             // C05's question)
-            return fail("diverged", String::new());
+            return fail("diverged", format!("(seq.rs:{})", line!()));
         }
         // ---- C16: memory accounting
         if mon.c16 && under_evicted {
@@ -774,7 +786,7 @@ fn run_leaf_inner(
                     return fail("mem-not-released", format!("step {} {}: the truncation covers {} records ({} payload bytes; the call reported {:?}) but memory_used_bytes went {} -> {}", i, op.short(), k, evicted, rec.got, ub, ru.memory_used_bytes));
                 }
             }
-            return fail("diverged", String::new());
+            return fail("diverged", format!("(seq.rs:{})", line!()));
         }
         if mon.c16 {
             let ru = run.subject.log().resource_usage();
@@ -1460,11 +1472,11 @@ fn c17_inner(stats: &mut Stats, dir: &std::path::Path, target: &std::path::Path,
                 if variant == 1 {
                     return fail("state-lost-with-numbering-gaps", format!("step {} {}: after restart the log yields {} instead of {}", i, op.short(), obs_summary(&obs), obs_summary(&model_obs(&run.model))));
                 }
-                return fail("diverged", String::new());
+                return fail("diverged", format!("(seq.rs:{})", line!()));
             }
         }
         if rec.got != rec.expected {
-            return fail("diverged", String::new());
+            return fail("diverged", format!("(seq.rs:{})", line!()));
         }
     }
     Ok(())
